@@ -294,7 +294,7 @@ def _elem_results(p: Path):
     return out
 
 
-def rule_allof(ctx: Ctx):
+def rule_allof(ctx: Ctx, rule: str = "C01.allof"):
     rep = ctx.rep
     for name in ("all", "async_all"):
         fn = ctx.fn(f"CallbacksExecutor.{name}")
@@ -303,21 +303,21 @@ def rule_allof(ctx: Ctx):
         n_before = len([o for o in rep.obligations if o.status in ("violation", "known")])
         for p in ctx.paths(fn, exc_edges="none"):
             if p.kind != "return":
-                rep.violation("C01.allof", fn.loc(), f"guard executor `{name}` ends with {p.kind}", fn.key, show(p.value))
+                rep.violation(rule, fn.loc(), f"guard executor `{name}` ends with {p.kind}", fn.key, show(p.value))
                 continue
             evs = p.events
             v = expand(p.value, evs)
             if isinstance(v, ast.Call) and isinstance(v.func, ast.Name) and v.func.id == "all" and len(v.args) == 1 and \
                     isinstance(v.args[0], (ast.GeneratorExp, ast.ListComp)) and not v.args[0].generators[0].ifs \
                     and show(v.args[0].generators[0].iter) == "self":
-                rep.ok("C01.allof", fn.loc(), f"`{name}` is `all(...)` over every guard of the list", shape=show(v))
+                rep.ok(rule, fn.loc(), f"`{name}` is `all(...)` over every guard of the list", shape=show(v))
                 n_true += 1
                 n_false += 1
                 continue
             res = _elem_results(p)
             if not (isinstance(v, ast.Constant) and isinstance(v.value, bool)):
                 if placeholder_closure(p.value, evs) & set(res):
-                    rep.violation("C01.allof", fn.loc(), f"`{name}` answers with the verdict of a single guard (`{show(v)}`), "
+                    rep.violation(rule, fn.loc(), f"`{name}` answers with the verdict of a single guard (`{show(v)}`), "
                                   "not the conjunction of all of them", fn.key, f"return {show(v)}")
                 else:
                     unrec.append(show(v))
@@ -329,21 +329,21 @@ def rule_allof(ctx: Ctx):
                 n_false += 1
                 ok = bool(elem_branches) and elem_branches[-1].x["taken"] is False and \
                     all(b.x["taken"] for b in elem_branches[:-1])
-                rep.check(ok, "C01.allof", fn.loc(), f"`{name}` answers False only because one guard's result was falsy",
+                rep.check(ok, rule, fn.loc(), f"`{name}` answers False only because one guard's result was falsy",
                           fn.key, f"return False after {[b.show() for b in elem_branches]}",
                           iterations=n_iter)
             else:
                 n_true += 1
                 ok = exhausted and len(elem_branches) == n_iter and all(b.x["taken"] for b in elem_branches)
-                rep.check(ok, "C01.allof", fn.loc(), f"`{name}` answers True only after every guard's result was truthy",
+                rep.check(ok, rule, fn.loc(), f"`{name}` answers True only after every guard's result was truthy",
                           fn.key, f"return True after {[b.show() for b in elem_branches]} exhausted={exhausted}",
                           iterations=n_iter)
         found = len([o for o in rep.obligations if o.status in ("violation", "known")]) > n_before
         if unrec and not found:
-            rep.unrecognised("C01.allof", fn.loc(), f"guard executor returns `{unrec[0]}`")
+            rep.unrecognised(rule, fn.loc(), f"guard executor returns `{unrec[0]}`")
         if not found:
-            rep.floor("C01.allof", f"True-returning paths of {name}", n_true, 1)
-            rep.floor("C01.allof", f"False-returning paths of {name}", n_false, 1)
+            rep.floor(rule, f"True-returning paths of {name}", n_true, 1)
+            rep.floor(rule, f"False-returning paths of {name}", n_false, 1)
     # every element considered is an element of the executor itself
     fn = ctx.fn("CallbacksExecutor.async_all")
     for p in ctx.paths(fn, exc_edges="none"):
@@ -354,23 +354,23 @@ def rule_allof(ctx: Ctx):
             ok = "self" in base
             if comps:
                 ok = ok and show(comps[0].term.generators[0].iter) == "self" and not comps[0].term.generators[0].ifs
-            rep.check(ok, "C01.allof", fn.loc(), "async_all starts one evaluation per guard of the list, unfiltered", fn.key, base)
+            rep.check(ok, rule, fn.loc(), "async_all starts one evaluation per guard of the list, unfiltered", fn.key, base)
             break
     # registry delegates and answers True for a key with no guards
     reg = ctx.fn("CallbacksRegistry.all")
     for p in ctx.paths(reg, exc_edges="none"):
         v = expand(p.value, p.events) if p.kind == "return" else None
         if isinstance(v, ast.Constant):
-            rep.check(v.value is True, "C01.allof", reg.loc(), "a transition without guards is enabled", reg.key, f"return {show(v)}")
+            rep.check(v.value is True, rule, reg.loc(), "a transition without guards is enabled", reg.key, f"return {show(v)}")
         else:
             ok = isinstance(v, ast.Call) and show(v.func) == "self._registry[key].all"
-            rep.check(ok, "C01.allof", reg.loc(), "registry.all delegates to the executor of that key", reg.key, f"return {show(v)}")
+            rep.check(ok, rule, reg.loc(), "registry.all delegates to the executor of that key", reg.key, f"return {show(v)}")
     rega = ctx.fn("CallbacksRegistry.async_all")
     for p in ctx.paths(rega, exc_edges="none"):
         v = expand(p.value, p.events) if p.kind == "return" else None
         ok = isinstance(v, ast.Call) and show(v.func) == "self._registry[key].async_all" or (
             isinstance(v, ast.Constant) and v.value is True)
-        rep.check(ok, "C01.allof", rega.loc(), "registry.async_all delegates to the executor of that key", rega.key, f"return {show(v)}")
+        rep.check(ok, rule, rega.loc(), "registry.async_all delegates to the executor of that key", rega.key, f"return {show(v)}")
 
 
 def rule_expected(ctx: Ctx):
